@@ -86,11 +86,14 @@ def make_case(case, seed):
     else:
         s = quicsynth.random_qspec(rng, avoid=OPEN_TRIGGERS)
         v6 = rng.random() < 0.4
+    grease = rng.random() < 0.15
+    if grease:
+        s.grease = rng.choice([0.3, 1.0])
     qc = quicsynth.build_qconn(s, rng)
     ep = tcpcap.random_ep(rng, v6=v6, sport=rng.choice([443, 443, 443, 4433, 8443, 50000]))
     fl = scene.quic_flow(qc, ep)
     items = scene.stamp(scene.merge([fl], rng, "concat"), rng, rng.choice(scene.TS_STYLES))
-    extra = []
+    extra = ["-g"] if grease else []
     mapargs = None
     r = rng.random()
     if r < 0.2:
@@ -101,7 +104,7 @@ def make_case(case, seed):
         extra += ["-m"] + mapargs
     feats = [f for f, on in (("retry", s.retry), ("0rtt", bool(s.zero_rtt)), ("ku", bool(qc.info["key_updates_done"])), ("ncid", s.new_cid_at >= 0),
                              ("cncid", s.client_new_cid_at >= 0), ("chsplit", len(s.ch_split) > 0), ("chreorder", tuple(s.ch_order) != tuple(sorted(s.ch_order))),
-                             ("half", s.server_half_rtt), ("coal1", s.coalesce_1rtt_with_hs)) if on]
+                             ("half", s.server_half_rtt), ("coal1", s.coalesce_1rtt_with_hs), ("grease", grease), ("cidprefix", bool(s.new_cid_prefix))) if on]
     pos = "first" if s.offered[0] == s.suite else ("grease-first" if s.offered[0] == 0x0a0a else "later")
     cls = [f"{s.suite:04X}", pos, s.c_scid_len, s.s_scid_len, s.pn_len_mode, "v6" if ep.v6 else "v4", "+".join(feats)]
     return dict(rng=rng, spec=s, qc=qc, ep=ep, items=items, flows=[fl], extra=extra, mapargs=mapargs, cls=cls, feats=feats)
